@@ -1,0 +1,61 @@
+#ifndef OCCA_INTERNAL_UTILS_VERIF_HEADER
+#define OCCA_INTERNAL_UTILS_VERIF_HEADER
+
+// Verification hooks.  Nothing in this header exists unless the library is
+// compiled with -DLIBOCCA_OCCA_VERIF; every use is inside the same guard.
+//
+//  - live-object accounting: every backend object class registers itself in
+//    its constructor and unregisters in its destructor; occa::verif::live(kind)
+//    is the number of objects of that class currently alive, isLive(kind, ptr)
+//    tells whether ptr is one of them, errors() counts destructions of
+//    objects that were not registered (double destruction).
+//  - yield points: occa::verif::yieldPoint(id) calls the installed callback
+//    (none by default), used to replay thread schedules deterministically.
+
+#ifdef LIBOCCA_OCCA_VERIF
+
+namespace occa {
+  namespace verif {
+    enum kind_t {
+      kDevice     = 0,   // modeDevice_t
+      kBuffer     = 1,   // modeBuffer_t (a memory pool is also a buffer)
+      kMemory     = 2,   // modeMemory_t
+      kMemoryPool = 3,   // modeMemoryPool_t
+      kKernel     = 4,   // modeKernel_t
+      kStream     = 5,   // modeStream_t
+      kStreamTag  = 6,   // modeStreamTag_t
+      kindCount   = 7
+    };
+
+    // Yield point ids: between ring.removeRef(this) and the needsFree() read
+    enum yieldId_t {
+      yDeviceRemoveRef     = 0,
+      yMemoryRemoveRef     = 1,
+      yMemoryPoolRemoveRef = 2,
+      yKernelRemoveRef     = 3,
+      yStreamRemoveRef     = 4,
+      yStreamTagRemoveRef  = 5
+    };
+
+    // Number of live objects of the class (atomic counter, thread-safe)
+    long live(int kind);
+    // Total number of constructions of the class since program start
+    long created(int kind);
+    // Is ptr a currently live object of the class? (mutex-protected registry)
+    bool isLive(int kind, const void *ptr);
+    // Number of unregistrations of a pointer that was not registered
+    long errors();
+
+    void registerObject(int kind, const void *ptr);
+    void unregisterObject(int kind, const void *ptr);
+
+    typedef void (*yieldCallback_t)(int id);
+    // Returns the previous callback; NULL uninstalls
+    yieldCallback_t setYieldCallback(yieldCallback_t callback);
+    void yieldPoint(int id);
+  }
+}
+
+#endif
+
+#endif
